@@ -51,6 +51,12 @@ RULE = ('correspondence: (1) fixup_one_index / fixup_slice_indices exhaustively 
         'cut() of windows and of singleton views (returned elements, tree and view bounds afterwards), replace/remove through '
         'singleton views; (P4) fixed interleaved call-argument shapes x real fields x every empty/one-element range x entry '
         'points; no-op requests (deleting an empty range) and FST.replace(code, one=False) on an element are entry points too; '
+        '(P8) docstring classification = start offset of `_body`: Module / def / async def / class (and If / For / With, which hold '
+        'none) x 21 kinds of FIRST statement that are or resemble a docstring (str with every prefix, concatenated, parenthesized, '
+        'bytes, f-string, number, Ellipsis, None, expressions on a str, 1-tuple) x has_docstr, len(_body), every _body[i], and 16 '
+        'edit forms through `_body` (item / slice assignment, insert, prepend, delete, put, put_slice, raw put, attribute '
+        'assignment, element remove; positive and negative indices); judge of "is a docstring": CPython ast.get_docstring; list '
+        'model `_body` = body[1:] if docstring else body; '
         '(P7) Compare WITH its operators (`a < b == c.d > e()`): every slice delete leaving >= 2 operands and every single-operand '
         'insert, op_side left/right (+ op) supplied through every option CHANNEL - call keyword, `with FST.options(...)`, '
         'FST.set_options(...) - and every entry point the channel allows (del view[a:b], view[a:b] = None, view[i:i] = x take no '
@@ -196,6 +202,10 @@ def _sweep(ctx, per_family, per_optional, n_progs, per_prog, full_product=False)
     for lst in pmap(c03_edits.run_name_case, c03_edits.name_items(full_product)):
         n0 += len(lst)
         _report(ctx, lst)
+    # what counts as a docstring (start offset of `_body`): every kind of first statement, judged by ast.get_docstring
+    for lst in pmap(c03_edits.run_docstr_case, c03_edits.docstr_items()):
+        n0 += len(lst)
+        _report(ctx, lst)
     # Compare with its operators, options given by keyword / `with FST.options()` / FST.set_options() (sequential: global state)
     for it in c03_edits.compare_items():
         lst = c03_edits.run_compare_product_case(it)
@@ -289,6 +299,11 @@ def replay(ctx, data):
         ci, field, doc, shape = w['name_args']
         for r in c03_edits.run_name_case((ci, field, doc, shape)):
             if 'fail' in r and (r['a'], r['b'], r['new'], r['op']) == (w['a'], w['b'], w['new'], w['op']):
+                ctx.fail(f'C03|{r["sigop"]}|{r["fam"]}|{r["fail"]}', f'{r["op"]} on {r["fam"]}: {r["fail"]} {r.get("detail", "")}', r)
+        return
+    if w.get('docstr_args'):
+        for r in c03_edits.run_docstr_case(tuple(w['docstr_args'])):
+            if 'fail' in r and r['op'] == w['op']:
                 ctx.fail(f'C03|{r["sigop"]}|{r["fam"]}|{r["fail"]}', f'{r["op"]} on {r["fam"]}: {r["fail"]} {r.get("detail", "")}', r)
         return
     if w.get('compare_args'):
